@@ -50,6 +50,7 @@ func CreateODS(
 	roots *share.AxisRoots,
 	eds *rsmt2d.ExtendedDataSquare,
 ) error {
+	verifhook.PointKV("ods.before-create", path)
 	mod := os.O_RDWR | os.O_CREATE | os.O_EXCL // ensure we fail if already exist
 	f, err := os.OpenFile(path, mod, filePermissions)
 	if err != nil {
